@@ -2,7 +2,7 @@
 from be_common import Case, HDR_LOG
 
 
-def simple_cmd(rng, case, nthreads, C):
+def simple_cmd(rng, case, nthreads, C, bt=True):
     r = rng.random()
     t = rng.randrange(nthreads)
     if r < 0.55:
@@ -13,7 +13,15 @@ def simple_cmd(rng, case, nthreads, C):
         lvl = rng.choice([0, 3, 4, 4, 4, 6, 7, 8])
         mode = 0 if rng.random() < 0.93 else rng.choice([1, 2])
         i = case.next_id; case.next_id += 1
-        return ('log', t, i, lg, lvl, HDR_LOG + pad, mode, rng.random() < 0.06)
+        st = rng.random() < 0.3
+        return ('log', t, i, lg, lvl, HDR_LOG + pad - (1 if st else 0), mode + (10 if st else 0), rng.random() < 0.06)
+    if r < 0.58 and bt:
+        lg = rng.randrange(len(case.loggers)); i = case.next_id; case.next_id += 1
+        k = rng.random()
+        if k < 0.45: return ('log', t, i, lg, 9, HDR_LOG + rng.choice([0, 5]), 0, False)      # LOG_BACKTRACE
+        if k < 0.7: return ('initbt', t, i, lg, rng.choice([0, 1, 2, 3, 3, 5]), rng.choice([10, 10, 7, 8, 4]), 36)
+        if k < 0.9: return ('flushbt', t, i, lg, 32)
+        return ('addfilter', rng.randrange(len(case.sinks)), rng.choice([2, 3, 5, 7]))
     if r < 0.65: return ('resume', t)
     if r < 0.72:
         i = case.next_id; case.next_id += 1
